@@ -17,6 +17,11 @@ package lang
 //@   replay lang_repr_nil_stringer
 //@   ensures [string-never-called-through-a-nil-pointer] calls(String) >= 1 ==> calls(Kind) >= 1 && !(ret(Kind, 0, 1) == 22 && calls(IsNil) >= 1 && ret(IsNil, 0, 1))
 //@   ensures [plain-values-by-their-own-value] v != nil && calls(String) == 0 && (typeis(v, string) || typeis(v, int) || typeis(v, int64) || typeis(v, uint64) || typeis(v, bool) || typeis(v, float64)) ==> calls(reprOfValue) == 1 && arg(reprOfValue, 0) == ret(reflect.ValueOf) && result == ret(reprOfValue) && calls(Elem) == 0
+// a non-nil pointer (to anything: a *string or *int key as much as a pointer to a struct) is represented by what it
+// points to, never by its address - the same key must hash to the same node every time, and two pointers to equal
+// contents are the same key
+//@   ensures [pointer-by-what-it-points-to] calls(String) == 0 && calls(reprOfValue) == 1 && calls(Kind) == 1 && ret(Kind, 0, 1) == 22 && calls(IsNil) == 1 && !ret(IsNil, 0, 1) ==> calls(Elem) == 1 && arg(reprOfValue, 0) == ret(Elem, 0) && result == ret(reprOfValue)
+//@   ensures [a-pointer-is-looked-at-once] calls(String) == 0 && v != nil ==> calls(Kind) == 1 && calls(Elem) <= 1
 //@ func reprOfValue
 //@   prop C13
 //@   let x = ret(Interface)
